@@ -181,8 +181,28 @@ class _Package:
                 zi.compress_type = comp
                 zi.create_system = 0
                 zi.external_attr = 0
-                z.writestr(zi, data)
+                z.writestr(zi, data, compresslevel=None if self.stored else 1)
         return bio.getvalue()
+
+
+_OPTS_COMMON = ("image_ref", "alt", "core_dates", "zip_stored", "math_seed", "labeler")
+OPTS_DOCX = _OPTS_COMMON + ("block_sdt", "last_rendered_breaks")
+OPTS_PPTX = _OPTS_COMMON + ("no_offsets", "comment_part_numbering", "math_fallback_image")
+OPTS_XLSX = _OPTS_COMMON + ("inline_strings", "sheet_images")
+
+
+def _check_opts(opts, allowed):
+    opts = opts or {}
+    for k in opts:
+        if k not in allowed:
+            raise ValueError("unknown option %r (known: %s)" % (k, ", ".join(allowed)))
+    return opts
+
+
+def _check_url(url):
+    if not isinstance(url, str) or not url or url != url.strip():
+        raise ValueError("hyperlink target must be a non-empty URI without surrounding blanks: %r" % (url,))
+    return url
 
 
 def _check_meta(meta, allowed, fmt):
@@ -264,8 +284,7 @@ class _Images:
         self.source = source
         self.rel_prefix = rel_prefix
         self.parent_prefix = parent_prefix
-        self.by_key = {}           # key -> (rid, partname) for "shared"
-        self.part_by_key = {}      # key -> partname for "dup_rid_parts" (per source part: rels are per part)
+        self.by_key = {}           # key -> (rid, partname) for "shared" (relationships are per source part)
 
     def ref(self, key):
         """-> (attribute text for a:blip, width px, height px, part file name)"""
@@ -349,7 +368,7 @@ PNG_1X1 = _png_1x1()
 # ---------------------------------------------------------------------------------------------- OMML
 
 
-def _math_xml(tree, opts, extra_ns=""):
+def _math_xml(tree, opts):
     """Serialise the C19 tree (built by verif.props.C19.build) with the m: prefix; no global ET state is touched."""
     from verif.props import C19
     lab = opts.get("labeler") or C19.Labeler(opts.get("math_seed", 0))
@@ -366,7 +385,7 @@ def _math_xml(tree, opts, extra_ns=""):
         name = "m:" + e.tag[len(pre):]
         out.append("<" + name)
         if top:
-            out.append(' xmlns:m="%s"%s' % (NS_M, extra_ns))
+            out.append(' xmlns:m="%s"' % NS_M)
         for k, v in e.attrib.items():
             if not k.startswith(pre):
                 raise ValueError("non-OMML attribute in formula tree: " + k)
@@ -533,7 +552,7 @@ class _Docx:
             elif k == "a":
                 if self.in_link:
                     raise NotImplementedError("nested hyperlinks cannot be expressed in WordprocessingML")
-                rid = self.pkg.rel(self.src, RT + "hyperlink", x[1], external=True)
+                rid = self.pkg.rel(self.src, RT + "hyperlink", _check_url(x[1]), external=True)
                 self.in_link += 1
                 inner = self.inlines(x[2], '<w:rPr><w:rStyle w:val="Hyperlink"/></w:rPr>')
                 self.in_link -= 1
@@ -729,7 +748,7 @@ def _docx_hdrftr(tag, style, tok):
 
 def docx(doc, images=None, opts=None) -> bytes:
     """ADM -> WordprocessingML package. Units are separated by a page-break paragraph."""
-    opts = opts or {}
+    opts = _check_opts(opts, OPTS_DOCX)
     if doc[0] != "doc":
         raise ValueError("not an ADM document")
     meta = _check_meta(doc[1], _META_CORE + ("header", "footer"), "DOCX")
@@ -758,8 +777,6 @@ def docx(doc, images=None, opts=None) -> bytes:
         sx = wr.blocks(u[1], None, "body", top=True)
         if wr.pending_comments:          # the unit produced no paragraph: give the comments an (empty) anchor paragraph
             sx += wr.para([])
-        if ui and sx.startswith("<w:tbl>") and False:
-            pass
         body.append(sx)
     if not "".join(body):
         body.append("<w:p/>")
@@ -814,3 +831,622 @@ def docx(doc, images=None, opts=None) -> bytes:
     if ftr_rid:
         pkg.add("word/footer1.xml", _docx_hdrftr("ftr", "Footer", meta["footer"]), CT_W + "footer+xml")
     return pkg.tobytes()
+
+
+# ============================================================================================== PPTX
+
+_P_NS = 'xmlns:a="%s" xmlns:r="%s" xmlns:p="%s"' % (NS_A, NS_R, NS_P)
+_SLIDE_W, _SLIDE_H = 9144000, 6858000
+_SP_TREE_HEAD = ('<p:nvGrpSpPr><p:cNvPr id="1" name=""/><p:cNvGrpSpPr/><p:nvPr/></p:nvGrpSpPr><p:grpSpPr><a:xfrm><a:off x="0" y="0"/>'
+                 '<a:ext cx="0" cy="0"/><a:chOff x="0" y="0"/><a:chExt cx="0" cy="0"/></a:xfrm></p:grpSpPr>')
+_CLR_MAP = ('<p:clrMap bg1="lt1" tx1="dk1" bg2="lt2" tx2="dk2" accent1="accent1" accent2="accent2" accent3="accent3" '
+            'accent4="accent4" accent5="accent5" accent6="accent6" hlink="hlink" folHlink="folHlink"/>')
+
+
+def _theme_xml(name="Office Theme") -> str:
+    x = [XML_DECL, '<a:theme xmlns:a="%s" name="%s"><a:themeElements><a:clrScheme name="Office">' % (NS_A, name),
+         '<a:dk1><a:sysClr val="windowText" lastClr="000000"/></a:dk1><a:lt1><a:sysClr val="window" lastClr="FFFFFF"/></a:lt1>'
+         '<a:dk2><a:srgbClr val="44546A"/></a:dk2><a:lt2><a:srgbClr val="E7E6E6"/></a:lt2>']
+    for i, c in enumerate(("4472C4", "ED7D31", "A5A5A5", "FFC000", "5B9BD5", "70AD47"), 1):
+        x.append('<a:accent%d><a:srgbClr val="%s"/></a:accent%d>' % (i, c, i))
+    x.append('<a:hlink><a:srgbClr val="0563C1"/></a:hlink><a:folHlink><a:srgbClr val="954F72"/></a:folHlink></a:clrScheme>'
+             '<a:fontScheme name="Office"><a:majorFont><a:latin typeface="Calibri Light"/><a:ea typeface=""/><a:cs typeface=""/></a:majorFont>'
+             '<a:minorFont><a:latin typeface="Calibri"/><a:ea typeface=""/><a:cs typeface=""/></a:minorFont></a:fontScheme>'
+             '<a:fmtScheme name="Office"><a:fillStyleLst>' + '<a:solidFill><a:schemeClr val="phClr"/></a:solidFill>' * 3 +
+             '</a:fillStyleLst><a:lnStyleLst>' + '<a:ln w="6350"><a:solidFill><a:schemeClr val="phClr"/></a:solidFill></a:ln>' * 3 +
+             '</a:lnStyleLst><a:effectStyleLst>' + '<a:effectStyle><a:effectLst/></a:effectStyle>' * 3 +
+             '</a:effectStyleLst><a:bgFillStyleLst>' + '<a:solidFill><a:schemeClr val="phClr"/></a:solidFill>' * 3 +
+             '</a:bgFillStyleLst></a:fmtScheme></a:themeElements></a:theme>')
+    return "".join(x)
+
+
+_THEME = _theme_xml().encode("utf-8")
+
+
+def _ph_sp(sid, name, ph, x, y, cx, cy, text=""):
+    body = ('<p:txBody><a:bodyPr/><a:lstStyle/><a:p>%s</a:p></p:txBody>'
+            % ('<a:r><a:rPr lang="en-US"/><a:t>%s</a:t></a:r>' % text if text else '<a:endParaRPr lang="en-US"/>'))
+    return ('<p:sp><p:nvSpPr><p:cNvPr id="%d" name="%s"/><p:cNvSpPr><a:spLocks noGrp="1"/></p:cNvSpPr><p:nvPr>%s</p:nvPr></p:nvSpPr>'
+            '<p:spPr><a:xfrm><a:off x="%d" y="%d"/><a:ext cx="%d" cy="%d"/></a:xfrm><a:prstGeom prst="rect"><a:avLst/></a:prstGeom></p:spPr>%s</p:sp>'
+            % (sid, name, ph, x, y, cx, cy, body))
+
+
+def _pptx_master() -> str:
+    return (XML_DECL + '<p:sldMaster %s><p:cSld><p:bg><p:bgRef idx="1001"><a:schemeClr val="bg1"/></p:bgRef></p:bg><p:spTree>%s%s%s</p:spTree></p:cSld>%s'
+            '<p:sldLayoutIdLst><p:sldLayoutId id="2147483649" r:id="rId1"/></p:sldLayoutIdLst>'
+            '<p:txStyles><p:titleStyle><a:lvl1pPr algn="l"><a:buNone/><a:defRPr sz="4400"/></a:lvl1pPr></p:titleStyle><p:bodyStyle>%s</p:bodyStyle>'
+            '<p:otherStyle/></p:txStyles></p:sldMaster>'
+            % (_P_NS, _SP_TREE_HEAD,
+               _ph_sp(2, "Title Placeholder 1", '<p:ph type="title"/>', 628650, 365125, 7886700, 1325563),
+               _ph_sp(3, "Text Placeholder 2", '<p:ph type="body" idx="1"/>', 628650, 1825625, 7886700, 4351338),
+               _CLR_MAP,
+               "".join('<a:lvl%dpPr marL="%d" indent="-228600"><a:buFont typeface="Arial"/><a:buChar char="&#8226;"/><a:defRPr sz="%d"/></a:lvl%dpPr>'
+                       % (i, 228600 + 457200 * (i - 1), max(2800 - 400 * (i - 1), 1800), i) for i in range(1, 10))))
+
+
+def _pptx_layout(nbody: int) -> str:
+    sps = [_ph_sp(2, "Title 1", '<p:ph type="title"/>', 628650, 365125, 7886700, 1325563)]
+    h = 4351338 // max(nbody, 1)
+    for i in range(1, nbody + 1):
+        sps.append(_ph_sp(2 + i, "Text Placeholder %d" % (i + 1), '<p:ph type="body" idx="%d"/>' % i, 628650, 1825625 + (i - 1) * h, 7886700, h))
+    return (XML_DECL + '<p:sldLayout %s preserve="1"><p:cSld name="Title and Content"><p:spTree>%s%s</p:spTree></p:cSld>'
+            '<p:clrMapOvr><a:masterClrMapping/></p:clrMapOvr></p:sldLayout>' % (_P_NS, _SP_TREE_HEAD, "".join(sps)))
+
+
+def _pptx_notes_master() -> str:
+    return (XML_DECL + '<p:notesMaster %s><p:cSld><p:bg><p:bgRef idx="1001"><a:schemeClr val="bg1"/></p:bgRef></p:bg><p:spTree>%s%s%s</p:spTree></p:cSld>%s</p:notesMaster>'
+            % (_P_NS, _SP_TREE_HEAD,
+               '<p:sp><p:nvSpPr><p:cNvPr id="2" name="Slide Image Placeholder 1"/><p:cNvSpPr><a:spLocks noGrp="1" noRot="1" noChangeAspect="1"/>'
+               '</p:cNvSpPr><p:nvPr><p:ph type="sldImg" idx="2"/></p:nvPr></p:nvSpPr><p:spPr><a:xfrm><a:off x="685800" y="1143000"/>'
+               '<a:ext cx="5486400" cy="3086100"/></a:xfrm><a:prstGeom prst="rect"><a:avLst/></a:prstGeom></p:spPr></p:sp>',
+               _ph_sp(3, "Notes Placeholder 2", '<p:ph type="body" sz="quarter" idx="3"/>', 685800, 4400550, 5486400, 3600450),
+               _CLR_MAP))
+
+
+class _Slide:
+    X0, W, STEP, H = 457200, 8229600, 500000, 400000
+
+    def __init__(self, pkg, pool, opts, name):
+        self.pkg = pkg
+        self.pool = pool
+        self.opts = opts
+        self.src = name
+        self.imgs = _Images(pool, name, "../media/", "../../ppt/media/")
+        self.no_off = bool(opts.get("no_offsets"))
+        self.sid = 1
+        self.slot = 0
+        self.nbody = 0
+        self.has_title = False
+        self.math = False          # set while rendering a shape whose text holds a formula
+
+    def _ids(self):
+        self.sid += 1
+        return self.sid
+
+    def _xfrm(self, cx=None, cy=None, tag="a:xfrm"):
+        """every shape gets the next vertical slot (source order = top-to-bottom order)"""
+        y = 200000 + self.slot * self.STEP
+        self.slot += 1
+        if self.no_off:
+            return "", y
+        return ('<%s><a:off x="%d" y="%d"/><a:ext cx="%d" cy="%d"/></%s>' % (tag, self.X0, y, cx or self.W, cy or self.H, tag)), y
+
+    # ---- text
+    def runs(self, xs, link=None):
+        out = []
+        rpr = '<a:rPr lang="en-US"><a:hlinkClick r:id="%s"/></a:rPr>' % link if link else ""
+        for x in xs:
+            k = x[0]
+            if k == "t":
+                out.append("<a:r>%s<a:t>%s</a:t></a:r>" % (rpr, _esc(x[1])))
+            elif k == "tab":
+                out.append("<a:r>%s<a:t>\t</a:t></a:r>" % rpr)
+            elif k == "br":
+                out.append("<a:br/>")
+            elif k == "a":
+                if link:
+                    raise NotImplementedError("nested hyperlinks cannot be expressed in DrawingML text")
+                rid = self.pkg.rel(self.src, RT + "hyperlink", _check_url(x[1]), external=True)
+                out.append(self.runs(x[2], rid))
+            elif k == "math":
+                if link:
+                    raise NotImplementedError("a formula inside a hyperlink run cannot be expressed in DrawingML text")
+                self.math = True
+                out.append("<a14:m>%s</a14:m>" % _math_xml(x[1], self.opts))
+            else:
+                raise NotImplementedError("PPTX inline %r" % (k,))
+        return "".join(out)
+
+    def a_p(self, inlines, ppr=""):
+        return "<a:p>%s%s</a:p>" % (ppr, self.runs(inlines))
+
+    def _wrap_math(self, shape, sid, name, nvpr, cnv, xfrm):
+        """PowerPoint wraps a shape whose text holds a14:m in mc:AlternateContent; the fallback shape shows a picture of it."""
+        if not self.math:
+            return shape
+        self.math = False
+        fill = ""
+        if self.opts.get("math_fallback_image", True):
+            fname = self.pool.new_part(PNG_1X1, "png")
+            rid = self.pkg.rel(self.src, RT + "image", "../media/" + fname)
+            fill = '<a:blipFill><a:blip r:embed="%s"/><a:stretch><a:fillRect/></a:stretch></a:blipFill>' % rid
+        locks = ('<a:spLocks noRot="1" noChangeAspect="1" noMove="1" noResize="1" noEditPoints="1" noAdjustHandles="1" '
+                 'noChangeArrowheads="1" noChangeShapeType="1" noTextEdit="1"/>')
+        fb = ('<p:sp><p:nvSpPr><p:cNvPr id="%d" name="%s"/><p:cNvSpPr%s>%s</p:cNvSpPr><p:nvPr>%s</p:nvPr></p:nvSpPr>'
+              '<p:spPr>%s<a:prstGeom prst="rect"><a:avLst/></a:prstGeom>%s</p:spPr><p:txBody><a:bodyPr/><a:lstStyle/>'
+              '<a:p><a:r><a:rPr lang="en-US"><a:noFill/></a:rPr><a:t> </a:t></a:r></a:p></p:txBody></p:sp>'
+              % (sid, name, cnv, locks, nvpr, xfrm, fill))
+        return ('<mc:AlternateContent xmlns:mc="%s" xmlns:a14="%s"><mc:Choice Requires="a14">%s</mc:Choice><mc:Fallback>%s</mc:Fallback>'
+                '</mc:AlternateContent>' % (NS_MC, NS_A14, shape, fb))
+
+    # ---- shapes
+    def title(self, inlines):
+        sid = self._ids()
+        xfrm, _ = self._xfrm()
+        name = "Title %d" % (sid - 1)
+        nvpr = '<p:ph type="title"/>'
+        sp = ('<p:sp><p:nvSpPr><p:cNvPr id="%d" name="%s"/><p:cNvSpPr><a:spLocks noGrp="1"/></p:cNvSpPr><p:nvPr>%s</p:nvPr></p:nvSpPr>'
+              '<p:spPr>%s</p:spPr><p:txBody><a:bodyPr/><a:lstStyle/>%s</p:txBody></p:sp>' % (sid, name, nvpr, xfrm, self.a_p(inlines)))
+        return self._wrap_math(sp, sid, name, nvpr, "", xfrm)
+
+    def textbox(self, inlines):
+        sid = self._ids()
+        xfrm, _ = self._xfrm()
+        name = "TextBox %d" % (sid - 1)
+        sp = ('<p:sp><p:nvSpPr><p:cNvPr id="%d" name="%s"/><p:cNvSpPr txBox="1"/><p:nvPr/></p:nvSpPr><p:spPr>%s'
+              '<a:prstGeom prst="rect"><a:avLst/></a:prstGeom><a:noFill/></p:spPr><p:txBody><a:bodyPr wrap="square" rtlCol="0">'
+              '<a:spAutoFit/></a:bodyPr><a:lstStyle/>%s</p:txBody></p:sp>' % (sid, name, xfrm, self.a_p(inlines)))
+        return self._wrap_math(sp, sid, name, "", ' txBox="1"', xfrm)
+
+    def body(self, items):
+        self.nbody += 1
+        sid = self._ids()
+        xfrm, _ = self._xfrm()
+        name = "Content Placeholder %d" % (sid - 1)
+        nvpr = '<p:ph type="body" idx="%d"/>' % self.nbody
+        paras = []
+        self._items(items, 0, paras)
+        if not paras:
+            paras.append("<a:p/>")
+        sp = ('<p:sp><p:nvSpPr><p:cNvPr id="%d" name="%s"/><p:cNvSpPr><a:spLocks noGrp="1"/></p:cNvSpPr><p:nvPr>%s</p:nvPr></p:nvSpPr>'
+              '<p:spPr>%s</p:spPr><p:txBody><a:bodyPr/><a:lstStyle/>%s</p:txBody></p:sp>' % (sid, name, nvpr, xfrm, "".join(paras)))
+        return self._wrap_math(sp, sid, name, nvpr, "", xfrm)
+
+    def _items(self, items, lvl, paras):
+        if lvl > 8:
+            raise NotImplementedError("DrawingML text has 9 list levels")
+        lv = ' lvl="%d"' % lvl if lvl else ""
+        for item in items:
+            first = True
+            if not item:
+                paras.append("<a:p>%s</a:p>" % ("<a:pPr%s/>" % lv if lv else ""))
+            for b in item:
+                if b[0] == "p":
+                    if first:
+                        ppr = "<a:pPr%s/>" % lv if lv else ""
+                    else:       # continuation paragraph of the same item: same level, no bullet
+                        ppr = '<a:pPr%s><a:buNone/></a:pPr>' % lv
+                    paras.append(self.a_p(b[1], ppr))
+                elif b[0] == "ul":
+                    self._items(b[1], lvl + 1, paras)
+                else:
+                    raise NotImplementedError("PPTX list items hold paragraphs and nested lists only, not %r" % (b[0],))
+                first = False
+
+    def table(self, rows):
+        if not rows or not rows[0]:
+            raise NotImplementedError("a DrawingML table needs at least one row and one column")
+        ncols = len(rows[0])
+        sid = self._ids()
+        cw = self.W // ncols
+        rh = 370840
+        if self.no_off:
+            self.slot += 1
+            xfrm = '<p:xfrm><a:off x="0" y="0"/><a:ext cx="0" cy="0"/></p:xfrm>'     # p:xfrm is mandatory on a graphic frame
+        else:
+            xfrm, _ = self._xfrm(cw * ncols, rh * len(rows), tag="p:xfrm")
+        x = ['<p:graphicFrame><p:nvGraphicFramePr><p:cNvPr id="%d" name="Table %d"/><p:cNvGraphicFramePr><a:graphicFrameLocks noGrp="1"/>'
+             '</p:cNvGraphicFramePr><p:nvPr/></p:nvGraphicFramePr>%s<a:graphic><a:graphicData uri="http://schemas.openxmlformats.org/drawingml/2006/table">'
+             '<a:tbl><a:tblPr firstRow="1" bandRow="1"/><a:tblGrid>%s</a:tblGrid>' % (sid, sid - 1, xfrm, '<a:gridCol w="%d"/>' % cw * ncols)]
+        for row in rows:
+            if len(row) != ncols:
+                raise NotImplementedError("ragged table rows cannot be expressed in a DrawingML table")
+            x.append('<a:tr h="%d">' % rh)
+            for cell in row:
+                paras = []
+                for b in cell:
+                    if b[0] != "p":
+                        raise NotImplementedError("PPTX table cells hold paragraphs only, not %r" % (b[0],))
+                    paras.append(self.a_p(b[1]))
+                    if self.math:
+                        raise NotImplementedError("a formula inside a PPTX table cell is not expressed by this writer")
+                x.append("<a:tc><a:txBody><a:bodyPr/><a:lstStyle/>%s</a:txBody><a:tcPr/></a:tc>" % ("".join(paras) or "<a:p/>"))
+            x.append("</a:tr>")
+        x.append("</a:tbl></a:graphicData></a:graphic></p:graphicFrame>")
+        return "".join(x)
+
+    def picture(self, key):
+        ref, w, h, fname = self.imgs.ref(key)
+        sid = self._ids()
+        xfrm, _ = self._xfrm(w * 9525, h * 9525)
+        return ('<p:pic><p:nvPicPr><p:cNvPr id="%d" name="Picture %d"%s/><p:cNvPicPr><a:picLocks noChangeAspect="1"/></p:cNvPicPr><p:nvPr/>'
+                '</p:nvPicPr><p:blipFill><a:blip %s/><a:stretch><a:fillRect/></a:stretch></p:blipFill><p:spPr>%s<a:prstGeom prst="rect">'
+                '<a:avLst/></a:prstGeom></p:spPr></p:pic>' % (sid, sid - 1, self.pool.descr(key), ref, xfrm))
+
+    def render(self, blocks):
+        out = []
+        for b in blocks:
+            k = b[0]
+            if k == "h":
+                if self.has_title:
+                    raise NotImplementedError("a slide has one title placeholder; a second heading cannot be expressed")
+                if b[1] not in (1, 2, 3):
+                    raise NotImplementedError("heading level %r" % (b[1],))
+                self.has_title = True
+                out.append(self.title(b[2]))
+            elif k == "p":
+                out.append(self.textbox(b[1]))
+            elif k == "ul":
+                out.append(self.body(b[1]))
+            elif k == "tbl":
+                out.append(self.table(b[1]))
+            elif k == "img":
+                out.append(self.picture(b[1]))
+            else:
+                raise NotImplementedError("PPTX block %r" % (k,))
+        return (XML_DECL + '<p:sld %s><p:cSld><p:spTree>%s%s</p:spTree></p:cSld><p:clrMapOvr><a:masterClrMapping/></p:clrMapOvr></p:sld>'
+                % (_P_NS, _SP_TREE_HEAD, "".join(out)))
+
+
+def pptx(doc, images=None, opts=None) -> bytes:
+    """ADM -> PresentationML package; one slide per unit."""
+    opts = _check_opts(opts, OPTS_PPTX)
+    if doc[0] != "doc":
+        raise ValueError("not an ADM document")
+    meta = _check_meta(doc[1], _META_CORE, "PPTX")
+    pkg = _Package(stored=bool(opts.get("zip_stored")))
+    pres = "ppt/presentation.xml"
+    pkg.rel("", RT + "officeDocument", pres)
+    _add_core(pkg, meta, opts)
+    pool = _ImagePool(pkg, images, opts, "ppt/media")
+    numbering = opts.get("comment_part_numbering", "sequential")
+    if numbering not in ("sequential", "slide"):
+        raise ValueError("comment_part_numbering")
+    units = doc[2]
+    master_rid = pkg.rel(pres, RT + "slideMaster", "slideMasters/slideMaster1.xml")
+    slides, notes_parts, comment_parts = [], [], []
+    max_body = 1
+    ncomments = 0
+    for i, u in enumerate(units, 1):
+        if u[0] != "unit":
+            raise NotImplementedError("PPTX cannot express unit kind %r" % (u[0],))
+        extras = (u[2] if len(u) > 2 else None) or {}
+        for k, v in extras.items():
+            if v and k not in ("notes", "comments"):
+                raise NotImplementedError("PPTX cannot express unit extra %r" % (k,))
+        name = "ppt/slides/slide%d.xml" % i
+        pkg.rel(name, RT + "slideLayout", "../slideLayouts/slideLayout1.xml")
+        if extras.get("notes"):
+            n = len(notes_parts) + 1
+            nname = "ppt/notesSlides/notesSlide%d.xml" % n
+            pkg.rel(name, RT + "notesSlide", "../notesSlides/notesSlide%d.xml" % n)
+            pkg.rel(nname, RT + "notesMaster", "../notesMasters/notesMaster1.xml")
+            pkg.rel(nname, RT + "slide", "../slides/slide%d.xml" % i)
+            paras = "".join("<a:p><a:r><a:t>%s</a:t></a:r></a:p>" % _esc(t) for t in extras["notes"])
+            notes_parts.append((nname, XML_DECL + (
+                '<p:notes %s><p:cSld><p:spTree>%s<p:sp><p:nvSpPr><p:cNvPr id="2" name="Slide Image Placeholder 1"/><p:cNvSpPr>'
+                '<a:spLocks noGrp="1" noRot="1" noChangeAspect="1"/></p:cNvSpPr><p:nvPr><p:ph type="sldImg"/></p:nvPr></p:nvSpPr><p:spPr/></p:sp>'
+                '<p:sp><p:nvSpPr><p:cNvPr id="3" name="Notes Placeholder 2"/><p:cNvSpPr><a:spLocks noGrp="1"/></p:cNvSpPr><p:nvPr>'
+                '<p:ph type="body" idx="1"/></p:nvPr></p:nvSpPr><p:spPr/><p:txBody><a:bodyPr/><a:lstStyle/>%s</p:txBody></p:sp></p:spTree></p:cSld>'
+                '<p:clrMapOvr><a:masterClrMapping/></p:clrMapOvr></p:notes>' % (_P_NS, _SP_TREE_HEAD, paras))))
+        if extras.get("comments"):
+            n = i if numbering == "slide" else len(comment_parts) + 1
+            pkg.rel(name, RT + "comments", "../comments/comment%d.xml" % n)
+            cms = []
+            for t in extras["comments"]:
+                ncomments += 1
+                cms.append('<p:cm authorId="0" dt="2020-01-01T00:00:00.000" idx="%d"><p:pos x="10" y="10"/><p:text>%s</p:text></p:cm>'
+                           % (ncomments, _esc(t)))
+            comment_parts.append(("ppt/comments/comment%d.xml" % n, XML_DECL + "<p:cmLst %s>%s</p:cmLst>" % (_P_NS, "".join(cms))))
+        sl = _Slide(pkg, pool, opts, name)
+        xml = sl.render(u[1])
+        max_body = max(max_body, sl.nbody)
+        slides.append((name, xml))
+    slide_rids = [pkg.rel(pres, RT + "slide", "slides/slide%d.xml" % i) for i in range(1, len(units) + 1)]
+    notes_rid = pkg.rel(pres, RT + "notesMaster", "notesMasters/notesMaster1.xml") if notes_parts else None
+    if comment_parts:
+        pkg.rel(pres, RT + "commentAuthors", "commentAuthors.xml")
+    pkg.rel(pres, RT + "theme", "theme/theme1.xml")
+    x = [XML_DECL, '<p:presentation %s saveSubsetFonts="1"><p:sldMasterIdLst><p:sldMasterId id="2147483648" r:id="%s"/></p:sldMasterIdLst>' % (_P_NS, master_rid)]
+    if notes_rid:
+        x.append('<p:notesMasterIdLst><p:notesMasterId r:id="%s"/></p:notesMasterIdLst>' % notes_rid)
+    if slide_rids:
+        x.append("<p:sldIdLst>%s</p:sldIdLst>" % "".join('<p:sldId id="%d" r:id="%s"/>' % (256 + i, r) for i, r in enumerate(slide_rids)))
+    x.append('<p:sldSz cx="%d" cy="%d"/><p:notesSz cx="6858000" cy="9144000"/></p:presentation>' % (_SLIDE_W, _SLIDE_H))
+    # parts, in the order PowerPoint writes them
+    media = pkg.parts[1:]            # [core, media...] so far
+    del pkg.parts[1:]
+    pkg.add(pres, "".join(x), CT_P + "presentation.main+xml")
+    if comment_parts:
+        pkg.add("ppt/commentAuthors.xml", XML_DECL + '<p:cmAuthorLst %s><p:cmAuthor id="0" name="%s" initials="V" lastIdx="%d" clrIdx="0"/></p:cmAuthorLst>'
+                % (_P_NS, AUTHOR, ncomments), CT_P + "commentAuthors+xml")
+    pkg.add("ppt/slideMasters/slideMaster1.xml", _pptx_master(), CT_P + "slideMaster+xml")
+    pkg.rel("ppt/slideMasters/slideMaster1.xml", RT + "slideLayout", "../slideLayouts/slideLayout1.xml")
+    pkg.rel("ppt/slideMasters/slideMaster1.xml", RT + "theme", "../theme/theme1.xml")
+    pkg.add("ppt/slideLayouts/slideLayout1.xml", _pptx_layout(max_body), CT_P + "slideLayout+xml")
+    pkg.rel("ppt/slideLayouts/slideLayout1.xml", RT + "slideMaster", "../slideMasters/slideMaster1.xml")
+    pkg.add("ppt/theme/theme1.xml", _THEME, CT_THEME)
+    if notes_parts:
+        pkg.add("ppt/notesMasters/notesMaster1.xml", _pptx_notes_master(), CT_P + "notesMaster+xml")
+        pkg.rel("ppt/notesMasters/notesMaster1.xml", RT + "theme", "../theme/theme2.xml")
+        pkg.add("ppt/theme/theme2.xml", _THEME, CT_THEME)
+    for name, xml in slides:
+        pkg.add(name, xml, CT_P + "slide+xml")
+    for name, xml in notes_parts:
+        pkg.add(name, xml, CT_P + "notesSlide+xml")
+    for name, xml in comment_parts:
+        pkg.add(name, xml, CT_P + "comments+xml")
+    pkg.parts.extend(media)
+    return pkg.tobytes()
+
+
+# ============================================================================================== XLSX
+
+XLSX_ERRORS = ("#NULL!", "#DIV/0!", "#VALUE!", "#REF!", "#NAME?", "#NUM!", "#N/A", "#GETTING_DATA")
+# cellXfs indices of styles.xml
+XF_GENERAL, XF_DATE, XF_DATETIME, XF_TIME, XF_DURATION = 0, 1, 2, 3, 4
+_XLSX_STYLES = (XML_DECL + '<styleSheet xmlns="%s"><numFmts count="1"><numFmt numFmtId="164" formatCode="[h]:mm:ss"/></numFmts>'
+                '<fonts count="1"><font><sz val="11"/><name val="Calibri"/><family val="2"/></font></fonts>'
+                '<fills count="2"><fill><patternFill patternType="none"/></fill><fill><patternFill patternType="gray125"/></fill></fills>'
+                '<borders count="1"><border><left/><right/><top/><bottom/><diagonal/></border></borders>'
+                '<cellStyleXfs count="1"><xf numFmtId="0" fontId="0" fillId="0" borderId="0"/></cellStyleXfs>'
+                '<cellXfs count="5"><xf numFmtId="0" fontId="0" fillId="0" borderId="0" xfId="0"/>'
+                '<xf numFmtId="14" fontId="0" fillId="0" borderId="0" xfId="0" applyNumberFormat="1"/>'
+                '<xf numFmtId="22" fontId="0" fillId="0" borderId="0" xfId="0" applyNumberFormat="1"/>'
+                '<xf numFmtId="21" fontId="0" fillId="0" borderId="0" xfId="0" applyNumberFormat="1"/>'
+                '<xf numFmtId="164" fontId="0" fillId="0" borderId="0" xfId="0" applyNumberFormat="1"/></cellXfs>'
+                '<cellStyles count="1"><cellStyle name="Normal" xfId="0" builtinId="0"/></cellStyles></styleSheet>' % NS_S).encode("utf-8")
+
+_XSTRING_ESC = re.compile(r"_x[0-9A-Fa-f]{4}_")
+_XSTRING_CTRL = re.compile("[\x00-\x08\x0b\x0c\x0e-\x1f\r\ufffe\uffff]")
+
+
+def _xstring(s: str) -> str:
+    """ST_Xstring: characters XML cannot carry are written _xHHHH_; a literal _xHHHH_ is protected with _x005F_."""
+    s = _XSTRING_ESC.sub(lambda m: "_x005F" + m.group(0), s)
+    s = _XSTRING_CTRL.sub(lambda m: "_x%04X_" % ord(m.group(0)), s)
+    return _esc(s)
+
+
+def _t_elem(s: str) -> str:
+    e = _xstring(s)
+    sp = ' xml:space="preserve"' if s != s.strip() or "\n" in s or "\t" in s else ""
+    return "<t%s>%s</t>" % (sp, e)
+
+
+def col_letters(c: int) -> str:
+    """0-based column index -> A, B, ..., Z, AA, ..."""
+    if c < 0 or c >= 16384:
+        raise NotImplementedError("column index outside A..XFD")
+    s = ""
+    c += 1
+    while c:
+        c, r = divmod(c - 1, 26)
+        s = chr(65 + r) + s
+    return s
+
+
+def excel_serial(date: _dt.date) -> int:
+    """1900 date system day number, including the fictitious 1900-02-29 (serial 60)."""
+    n = (date - _dt.date(1899, 12, 31)).days
+    if n < 1:
+        raise NotImplementedError("dates before 1900-01-01 cannot be stored as 1900-system serials")
+    return n + 1 if n >= 60 else n
+
+
+def _num(v) -> str:
+    if isinstance(v, bool):
+        raise ValueError("bool is not a number cell")
+    if isinstance(v, int):
+        return str(v)
+    if v != v or v in (float("inf"), float("-inf")):
+        raise NotImplementedError("NaN/Infinity cannot be stored in a SpreadsheetML number cell")
+    return repr(float(v))
+
+
+def _day_fraction(seconds) -> str:
+    return _num(seconds / 86400.0)
+
+
+class _Sheet:
+    def __init__(self, sst, inline):
+        self.sst = sst
+        self.inline = inline
+        self.nrefs = 0             # number of shared-string cell references (sst/@count)
+
+    def value(self, cell):
+        """-> (t attribute or None, style index, inner xml) for a non-formula cell"""
+        k = cell[0]
+        if k == "s":
+            if not isinstance(cell[1], str):
+                raise ValueError("string cell needs str")
+            if len(cell[1]) > 32767:
+                raise NotImplementedError("cell text longer than 32767 characters")
+            if self.inline:
+                return "inlineStr", XF_GENERAL, "<is>%s</is>" % _t_elem(cell[1])
+            i = self.sst.setdefault(cell[1], len(self.sst))
+            self.nrefs += 1
+            return "s", XF_GENERAL, "<v>%d</v>" % i
+        if k == "i":
+            if isinstance(cell[1], bool) or not isinstance(cell[1], int):
+                raise ValueError("int cell needs int")
+            return None, XF_GENERAL, "<v>%s</v>" % _num(cell[1])
+        if k == "f":
+            return None, XF_GENERAL, "<v>%s</v>" % _num(float(cell[1]))
+        if k == "b":
+            return "b", XF_GENERAL, "<v>%d</v>" % (1 if cell[1] else 0)
+        if k == "err":
+            if cell[1] not in XLSX_ERRORS:
+                raise ValueError("not a SpreadsheetML error value: %r" % (cell[1],))
+            return "e", XF_GENERAL, "<v>%s</v>" % _esc(cell[1])
+        if k == "d":
+            return None, XF_DATE, "<v>%d</v>" % excel_serial(_dt.date.fromisoformat(cell[1]))
+        if k == "dt":
+            d = _dt.datetime.fromisoformat(cell[1])
+            if d.tzinfo is not None:
+                raise NotImplementedError("time zones cannot be stored in a date cell")
+            secs = d.hour * 3600 + d.minute * 60 + d.second + d.microsecond / 1e6
+            return None, XF_DATETIME, "<v>%s</v>" % _num(excel_serial(d.date()) + secs / 86400.0)
+        if k == "tm":
+            t = _dt.time.fromisoformat(cell[1])
+            secs = t.hour * 3600 + t.minute * 60 + t.second + t.microsecond / 1e6
+            return None, XF_TIME, "<v>%s</v>" % _day_fraction(secs)
+        if k == "dur":
+            if cell[1] < 0:
+                raise NotImplementedError("negative durations cannot be displayed in the 1900 date system")
+            return None, XF_DURATION, "<v>%s</v>" % _day_fraction(cell[1])
+        raise NotImplementedError("XLSX cell kind %r" % (k,))
+
+    def cell(self, ref, cell):
+        if cell[0] == "fml":
+            text = cell[1]
+            if text.startswith("="):
+                text = text[1:]            # the leading '=' is user-interface syntax, not part of <f>
+            if not text:
+                raise ValueError("empty formula")
+            f = "<f>%s</f>" % _esc(text)
+            cached = cell[2] if len(cell) > 2 else None
+            if cached is None:
+                return '<c r="%s">%s</c>' % (ref, f)
+            if cached[0] == "fml":
+                raise ValueError("cached value of a formula cannot be a formula")
+            if cached[0] == "s":
+                return '<c r="%s" t="str">%s<v>%s</v></c>' % (ref, f, _xstring(cached[1]))
+            t, s, inner = self.value(cached)
+        else:
+            f = ""
+            t, s, inner = self.value(cell)
+        return '<c r="%s"%s%s>%s%s</c>' % (ref, ' s="%d"' % s if s else "", ' t="%s"' % t if t else "", f, inner)
+
+    def xml(self, grid, drawing_rid):
+        rows = []
+        minc = maxc = minr = maxr = None
+        for r, row in enumerate(grid):
+            cells = []
+            for c, cell in enumerate(row):
+                if cell is None:
+                    continue
+                cells.append(self.cell(col_letters(c) + str(r + 1), cell))
+                minc = c if minc is None else min(minc, c)
+                maxc = c if maxc is None else max(maxc, c)
+                minr = r if minr is None else minr
+                maxr = r
+            if cells:
+                rows.append('<row r="%d">%s</row>' % (r + 1, "".join(cells)))
+        if len(grid) > 1048576:
+            raise NotImplementedError("more than 1048576 rows")
+        if minc is None:
+            dim = "A1"
+        else:
+            a, b = col_letters(minc) + str(minr + 1), col_letters(maxc) + str(maxr + 1)
+            dim = a if a == b else a + ":" + b
+        return (XML_DECL + '<worksheet xmlns="%s" xmlns:r="%s"><dimension ref="%s"/><sheetViews><sheetView workbookViewId="0"/></sheetViews>'
+                '<sheetFormatPr defaultRowHeight="15"/>%s<pageMargins left="0.7" right="0.7" top="0.75" bottom="0.75" header="0.3" footer="0.3"/>%s</worksheet>'
+                % (NS_S, NS_R, dim, "<sheetData>%s</sheetData>" % "".join(rows) if rows else "<sheetData/>",
+                   '<drawing r:id="%s"/>' % drawing_rid if drawing_rid else ""))
+
+
+_BAD_SHEET_CHARS = set("[]:*?/\\")
+
+
+def _check_sheet_names(names):
+    seen = set()
+    for n in names:
+        if not isinstance(n, str) or not n or len(n) > 31 or _BAD_SHEET_CHARS & set(n) or n[0] == "'" or n[-1] == "'":
+            raise ValueError("invalid sheet name %r" % (n,))
+        if n.lower() in seen:
+            raise ValueError("duplicate sheet name %r" % (n,))
+        seen.add(n.lower())
+
+
+def _xlsx_drawing(imgs, pool, keys, first_row):
+    x = [XML_DECL, '<xdr:wsDr xmlns:xdr="%s" xmlns:a="%s" xmlns:r="%s">' % (NS_XDR, NS_A, NS_R)]
+    row = first_row
+    for n, key in enumerate(keys, 1):
+        ref, w, h, fname = imgs.ref(key)
+        rows = max(1, -(-h // 20))
+        cols = max(1, -(-w // 64))
+        x.append('<xdr:twoCellAnchor editAs="oneCell"><xdr:from><xdr:col>0</xdr:col><xdr:colOff>0</xdr:colOff><xdr:row>%d</xdr:row>'
+                 '<xdr:rowOff>0</xdr:rowOff></xdr:from><xdr:to><xdr:col>%d</xdr:col><xdr:colOff>0</xdr:colOff><xdr:row>%d</xdr:row>'
+                 '<xdr:rowOff>0</xdr:rowOff></xdr:to><xdr:pic><xdr:nvPicPr><xdr:cNvPr id="%d" name="Picture %d"%s/><xdr:cNvPicPr>'
+                 '<a:picLocks noChangeAspect="1"/></xdr:cNvPicPr></xdr:nvPicPr><xdr:blipFill><a:blip %s/><a:stretch><a:fillRect/></a:stretch>'
+                 '</xdr:blipFill><xdr:spPr><a:xfrm><a:off x="0" y="%d"/><a:ext cx="%d" cy="%d"/></a:xfrm><a:prstGeom prst="rect"><a:avLst/>'
+                 '</a:prstGeom></xdr:spPr></xdr:pic><xdr:clientData/></xdr:twoCellAnchor>'
+                 % (row, cols, row + rows, n + 1, n, pool.descr(key), ref, row * 190500, w * 9525, h * 9525))
+        row += rows + 1
+    x.append("</xdr:wsDr>")
+    return "".join(x)
+
+
+def xlsx(doc, images=None, opts=None) -> bytes:
+    """ADM -> SpreadsheetML package. doc[2] = [["sheet", name, grid] or ["sheet", name, grid, {"images": [key, ...]}], ...]."""
+    opts = _check_opts(opts, OPTS_XLSX)
+    if doc[0] != "doc":
+        raise ValueError("not an ADM document")
+    meta = _check_meta(doc[1], _META_CORE, "XLSX")
+    sheets = doc[2]
+    if not sheets:
+        raise NotImplementedError("a workbook needs at least one sheet")
+    for u in sheets:
+        if u[0] != "sheet":
+            raise NotImplementedError("XLSX cannot express unit kind %r" % (u[0],))
+        for k, v in ((u[3] if len(u) > 3 else None) or {}).items():
+            if v and k != "images":
+                raise NotImplementedError("XLSX cannot express sheet extra %r" % (k,))
+    _check_sheet_names([u[1] for u in sheets])
+    pkg = _Package(stored=bool(opts.get("zip_stored")))
+    wbn = "xl/workbook.xml"
+    pkg.rel("", RT + "officeDocument", wbn)
+    _add_core(pkg, meta, opts)
+    pool = _ImagePool(pkg, images, opts, "xl/media")
+    sst = {}
+    writer = _Sheet(sst, bool(opts.get("inline_strings")))
+    extra_imgs = opts.get("sheet_images") or {}
+    sheet_parts, drawing_parts = [], []
+    rids = []
+    for i, u in enumerate(sheets, 1):
+        name = "xl/worksheets/sheet%d.xml" % i
+        rids.append(pkg.rel(wbn, RT + "worksheet", "worksheets/sheet%d.xml" % i))
+        keys = list(((u[3] if len(u) > 3 else None) or {}).get("images") or []) + list(extra_imgs.get(i - 1) or [])
+        drid = None
+        if keys:
+            dn = len(drawing_parts) + 1
+            dname = "xl/drawings/drawing%d.xml" % dn
+            drid = pkg.rel(name, RT + "drawing", "../drawings/drawing%d.xml" % dn)
+            imgs = _Images(pool, dname, "../media/", "../../xl/media/")
+            drawing_parts.append((dname, _xlsx_drawing(imgs, pool, keys, len(u[2]) + 1)))
+        sheet_parts.append((name, writer.xml(u[2], drid)))
+    pkg.rel(wbn, RT + "styles", "styles.xml")
+    if sst:
+        pkg.rel(wbn, RT + "sharedStrings", "sharedStrings.xml")
+    wb = [XML_DECL, '<workbook xmlns="%s" xmlns:r="%s"><bookViews><workbookView/></bookViews><sheets>' % (NS_S, NS_R)]
+    for i, (u, rid) in enumerate(zip(sheets, rids), 1):
+        wb.append('<sheet name="%s" sheetId="%d" r:id="%s"/>' % (_attr(u[1]), i, rid))
+    wb.append("</sheets></workbook>")
+    media = pkg.parts[1:]
+    del pkg.parts[1:]
+    pkg.add(wbn, "".join(wb), CT_S + "sheet.main+xml")
+    for name, xml in sheet_parts:
+        pkg.add(name, xml, CT_S + "worksheet+xml")
+    pkg.add("xl/styles.xml", _XLSX_STYLES, CT_S + "styles+xml")
+    if sst:
+        x = [XML_DECL, '<sst xmlns="%s" count="%d" uniqueCount="%d">' % (NS_S, writer.nrefs, len(sst))]
+        for s in sst:          # dicts keep insertion order = index order
+            x.append("<si>%s</si>" % _t_elem(s))
+        x.append("</sst>")
+        pkg.add("xl/sharedStrings.xml", "".join(x), CT_S + "sharedStrings+xml")
+    for name, xml in drawing_parts:
+        pkg.add(name, xml, CT_DRAWING)
+    pkg.parts.extend(media)
+    return pkg.tobytes()
+
